@@ -11,7 +11,7 @@ EXPLICIT="$*"
 CHECKS=${*:-C01 C02 C03 C04 C05 C06 C07 C08 C09 C10 C11 C12 C13 C14 C15 C16 C17 C18 C19 C20}
 export GOFLAGS=-mod=mod GOPROXY=off GOSUMDB=off GOTOOLCHAIN=local
 i=0
-for pd in seeded/neutral*/C*/patch.diff; do
+for pd in ${NEUT_GLOB:-seeded/neutral*/C*/patch.diff}; do
   i=$((i+1)); [ $((i % N)) -eq $((W % N)) ] || continue
   tag=$(echo $pd | sed 's|seeded/||; s|/patch.diff||; s|/|-|')
   T=/tmp/neutall-$tag
